@@ -64,6 +64,7 @@ type Plan struct {
 	Cfg      CfgPlan          `json:"cfg"`
 	Ops      []Op             `json:"ops,omitempty"`
 	Net      NetPlan          `json:"net"`
+	Names    []string         `json:"names,omitempty"`     // optional node names (default n<i>)
 	YieldOff []string         `json:"yield_off,omitempty"` // disabled yield sites ("*" = all)
 	P        map[string]int64 `json:"p,omitempty"`
 }
